@@ -55,7 +55,7 @@ impl Prop for C16 {
         false
     }
     fn rule(&self) -> String {
-        "every constant of the shipped data files (decoded independently: flate2 + serde_cbor Value) x every permutation of its <=6 search words, asked as a query with descriptions on. Typeable = every word is [A-Za-z0-9°'] and not `to`, the first word starts with a letter (harness-side predicate; constants without a typeable spelling are counted as outside the quantifier). Oracle: exactly one Ok result, one description whose constant carries every query word, decodes with value/unit/description and a resolvable source, and whose value/unit are the result. Non-trivial = the phrase has >=2 words; distinct = distinct phrases".into()
+        "every constant of the shipped data files (decoded independently: flate2 + serde_cbor Value) x every permutation of its <=6 search words, asked as a query with descriptions on. Typeable = every word is [A-Za-z0-9°'] and not `to`, the first word starts with a letter (harness-side predicate; constants without a typeable spelling are counted as outside the quantifier). Oracle: exactly one Ok result, one description whose constant carries every query word, decodes with value/unit/description and a resolvable source, and whose value/unit are the result and equal the value/unit stored in the data file (read without the subject's types). Non-trivial = the phrase has >=2 words; distinct = distinct phrases".into()
     }
     fn assumptions(&self) -> Vec<String> {
         vec!["lookups are made on one in-memory database per worker process".into()]
@@ -124,6 +124,37 @@ impl Prop for C16 {
         }
         if &obs::rat_of(&c.value) != value || &obs::unit_parts(&c.unit) != unit {
             return fw::fail(sig("value"), format!("{q}: result {} is not the described constant's value", d.results[0].short()));
+        }
+        // "decodes completely": value and unit must be the stored ones, read from the data
+        // files without any of the subject's types
+        static STORED: std::sync::OnceLock<Vec<refdb::RefConstant>> = std::sync::OnceLock::new();
+        let stored = STORED.get_or_init(refdb::constants);
+        let mut toks: Vec<String> = c.tokens.iter().map(|t| t.to_string()).collect();
+        toks.sort();
+        let cands: Vec<&refdb::RefConstant> = stored
+            .iter()
+            .filter(|r| {
+                let mut t = r.tokens.clone();
+                t.sort();
+                t == toks && r.description.as_deref() == Some(c.description.as_ref())
+            })
+            .collect();
+        if cands.is_empty() {
+            return fw::fail(sig("not-a-stored-constant"), format!("{q}: returned constant {:?} ({}) is not in the data files", c.tokens, c.description));
+        }
+        let matches = |r: &refdb::RefConstant| {
+            let mut want_unit = r.unit.as_ref().map(obs::unit_parts_of_value).unwrap_or_default();
+            want_unit.sort();
+            let mut got_unit = unit.clone();
+            got_unit.sort();
+            r.value.as_ref() == Some(value) && want_unit == got_unit
+        };
+        if !cands.iter().any(|r| matches(r)) {
+            let r = cands[0];
+            return fw::fail(
+                sig("stored-value"),
+                format!("{q}: the tool decodes the constant as {}; the data file stores value {:?} and unit {:?}", d.results[0].short(), r.value.as_ref().map(|v| v.to_string()), r.unit.as_ref().map(obs::unit_parts_of_value)),
+            );
         }
         fw::pass(words.len() >= 2, fw::hash_str(&format!("{:?}", c.tokens)))
     }
